@@ -420,6 +420,7 @@ type nmEngine struct {
 	allowBad bool
 	resizes  int // resize transactions built so far
 	pending  []*nmTx
+	bigJumps bool // epoch jumps land right below 2^31
 }
 
 func nmBody(r *Run) {
@@ -444,6 +445,7 @@ func (e *nmEngine) run() {
 	n := ns[Pick(t, "n", len(ns))]
 	// swarm knobs
 	e.noFaults = Chance(t, "noFaults", 15)
+	e.bigJumps = Prop() != "C08" && Chance(t, "bigJumps", 12)
 	e.allowBad = Chance(t, "allowMalformed", 75)
 	withBalance := !Chance(t, "noBalance", 15)
 	pw := []int{10, 25, 35, 30}
@@ -792,6 +794,11 @@ func (e *nmEngine) build(op nmOp) []*nmTx {
 			ep, f = e.proj+2, "epoch.jump"
 		default:
 			ep, f = e.proj+5, "epoch.jump"
+			if e.bigJumps && e.proj < 1<<31-2 {
+				// right below the point where the epoch no longer fits four
+				// bytes with a sign: the next ticks cross it one by one
+				ep = 1<<31 - 2
+			}
 		}
 		var sf string
 		bt.signers, sf = AlphaSignerClass(e.w, op.Sig, e.stranger)
